@@ -183,6 +183,52 @@ def e2_classification(rep: C.Report) -> None:
         ob.detail = f"regex not translatable: {e}"
 
 
+VALIDATION_LISTS = [
+    ["x"], [" x "], ["a=b"], [" a = b "], ["1=z"], ["a\n= b\n"], ["\nx"], ["x", "y", "z"], ["a=1", "b"], ["x", "a=1", "y"],
+    ["0=z"], ["00=z"], ["-1=z"], ["1.5=z"], ["1e2=z"], ["x", "0=z", "y"], ["a", "x= 1 ", "0= z "], ["3=c", "a=b"], ["b=1", "a=2", "c=3"],
+    ["x=\ny"], ["k=a b"], ["A=1", "a=2"], ["é=ü"], ["x", "y", "z", "w"], ["p", "q", "r", "s", "t", "u"], ["n= v", "m=w ", "l =x"],
+    ["5=five", "x"], ["x", "5=five"],
+]
+
+
+def model_validation(rep: C.Report, mod) -> None:
+    """Validation of the one modelled step (the Lua accessor's trim / key handling): the modelled third view is compared with
+    the REAL Lua view (echo module through #invoke) on a fixed catalogue of argument lists, and the three real views with each
+    other.  A disagreement of the real views outside the recorded regions is a violation; a disagreement between model and real
+    Lua view only invalidates the model (obligation inconclusive)."""
+    ob = rep.add(C.Ob("Ob0 validation of the modelled Lua accessor against the real sandbox (catalogue of argument lists)", "model validation (concrete runs of the real Lua bridge)", ["lua/_sandbox_phase2.lua:frame_args_index (real, through #invoke)", "harness view3 (model)"], f"{len(VALIDATION_LISTS)} argument lists incl. numeric-looking names 0, 00, -1, 1.5, 1e2"))
+    bad_model, bad_real = [], []
+    for args in VALIDATION_LISTS:
+        ob.conditions += 1
+        ob.paths += 1
+        try:
+            p1, p2, p3 = mod.api_views(args)
+            m3 = mod.view3(args)
+        except Exception as e:  # noqa: BLE001
+            ob.detail += f"{args!r}: {type(e).__name__}: {e}; "
+            continue
+        known = mod._known_shift_args(args) if hasattr(mod, "_known_shift_args") else False
+        if not (p1 == p2 == p3):
+            if known:
+                ob.confirmed_conditions += 1
+                continue
+            bad_real.append((args, p1, p2, p3))
+        elif m3 != p3:
+            bad_model.append((args, m3, p3))
+        else:
+            ob.confirmed_conditions += 1
+    ob.samples.append({"lists": len(VALIDATION_LISTS), "real_views_disagree": [a for a, *_ in bad_real][:5], "model_differs_from_real_lua": [a for a, *_ in bad_model][:5]})
+    if bad_real:
+        vs = []
+        for args, p1, p2, p3 in bad_real[:3]:
+            vs.append(rep.violation("template call arguments " + repr(list(args)), f"the three argument views disagree: node={p1!r} template_fn={p2!r} lua={p3!r}", {"args": args}))
+        ob.verdict = C.VIOLATED if any(v.known is None for v in vs) else C.KNOWN
+    elif bad_model:
+        ob.detail += f"model of the Lua accessor differs from the real sandbox on {bad_model[:2]} - the E1 conditions below rest on an invalid model; "
+    else:
+        ob.verdict = C.DISCHARGED
+
+
 def run(rep: C.Report) -> None:
     quick = C.tier() == "quick"
     rep.explanation = (
@@ -211,6 +257,7 @@ def run(rep: C.Report) -> None:
                 rep.violation(sig, what, {"args": probe})
     except Exception as e:  # noqa: BLE001
         rep.extra["known_probe_error"] = f"{type(e).__name__}: {e}"
+    model_validation(rep, mod)
     e2_classification(rep)
     try:
         src = open(H).read() + "\n" + gen_conditions(quick)
